@@ -1,5 +1,6 @@
 import Acra.Drv.FTI
+import Acra.Drv.Ch10
 namespace Acra.Drv
-def allCodecs : List Codec := ftiCodecs
-def allFuncs : List Func := ftiFuncs
+def allCodecs : List Codec := ftiCodecs ++ ch10Codecs
+def allFuncs : List Func := ftiFuncs ++ ch10Funcs
 end Acra.Drv
